@@ -333,6 +333,16 @@ fn gen_axis(rng: &mut Rng) -> (i32, i32, i32) {
             v[1] = v[0];
             v[2] = v[0]; // fully degenerate
         }
+        4 => {
+            // malformed with an equality: default = min and max below them (an empty span on one side
+            // and a clamped coordinate on the other), or default = max and min above them
+            v.sort();
+            if rng.chance(1, 2) {
+                v = [v[1], v[1], v[0]];
+            } else {
+                v = [v[2], v[1], v[1]];
+            }
+        }
         _ => v.sort(),
     }
     (v[0], v[1], v[2])
